@@ -454,13 +454,21 @@ func (o *c12Oracle) checkEndpoints() error {
 				}
 			}
 			for _, r := range me.Rets {
+				if r.Code == "error" {
+					// the default response: demanded below, with its payload
+					continue
+				}
 				wantC = append(wantC, r.Code)
 			}
 			if !c12SameSet(gotC, wantC) {
 				return o.fail("", "%s: responses %v, declared returns %v", where, gotC, wantC)
 			}
 			for _, r := range me.Rets {
-				resp := c12Map(resps[r.Code])
+				key := r.Code
+				if key == "error" {
+					key = "default"
+				}
+				resp := c12Map(resps[key])
 				var sch c12Obj
 				if o.v == 2 {
 					sch = c12Map(resp["schema"])
@@ -672,8 +680,8 @@ func (o *c12Oracle) checkReimport(content []byte, ext string, lg *logrus.Logger)
 			}
 			got := map[string]c11MRet{}
 			for _, r := range ep.Rets {
-				if r.Code == "error" || r.Code == "ok" || r.Code == "" {
-					continue // the library's "default" response and untyped extras are not part of the abstraction
+				if r.Code == "ok" || r.Code == "" || (r.Code == "error" && r.Type == "") {
+					continue // the library's placeholder "default" response and untyped extras are not part of the abstraction
 				}
 				got[r.Code] = r
 			}
